@@ -69,14 +69,69 @@ def gapsLine (t : ClassTable) : String :=
     ++ " known=" ++ names t.attrs t.knownUninit
     ++ " aliased=" ++ names t.attrs t.aliased ++ " aliasFree=" ++ fB (aliasFreeB t)
 
-abbrev DSt := Option (ClassTable × St)
+/-- value-level machine + the (angle ↦ cos, tan) values numpy produced, supplied by the harness -/
+structure CtM where
+  s : CTState Float
+  trig : List (Float × Float × Float)
+
+structure DSt where
+  tab : Option (ClassTable × St) := none
+  ctm : Option CtM := none
+
+def extOf (trig : List (Float × Float × Float)) : CTExt Float :=
+  { sqrt := Float.sqrt,
+    cos := fun a => match trig.find? (fun e => e.1.toBits == a.toBits) with | some e => e.2.1 | none => Float.cos a,
+    tan := fun a => match trig.find? (fun e => e.1.toBits == a.toBits) with | some e => e.2.2 | none => Float.tan a,
+    ceil := ceilF }
+
+def takeAcc : Nat → List String → List (Float × Nat)
+  | 0, _ => []
+  | k + 1, w :: n :: rest => (pF w, pN n) :: takeAcc k rest
+  | _, _ => []
+
+def showOut : CTOut Float → String
+  | .done => "done"
+  | .valueError => "ValueError"
+  | .num v => "num " ++ fF v
+  | .int n => "int " ++ toString n
+  | .arrays a => "arrays " ++ " ".intercalate (a.map fun r => toString r.length ++ " " ++ fFs r)
+  | .names l => "names " ++ " ".intercalate (l.map hexEncode)
+
+def parseOp (ts : List String) : Option (CTOp Float × Option (Float × Float × Float)) :=
+  match ts with
+  | ["setOrder", v] => some (.setOrder (pN v), none)
+  | ["setGrating", v] => some (.setGrating (pF v), none)
+  | ["setFocal", v] => some (.setFocal (pF v), none)
+  | ["setSpacing", v] => some (.setSpacing (pF v), none)
+  | ["setAngle", v, c, t] => some (.setAngle (pF v), some (pF v, pF c, pF t))
+  | "setAcc" :: k :: rest => some (.setAcc (takeAcc (pN k) rest), none)
+  | ["setMbpp", v] => some (.setMbpp (pN v), none)
+  | ["setName", v] => some (.setName (hexDecode v), none)
+  | ["getMin"] => some (.getMin, none)
+  | ["getMax"] => some (.getMax, none)
+  | ["getBins"] => some (.getBins, none)
+  | ["getW2p"] => some (.getW2p, none)
+  | ["getWavelengths"] => some (.getWavelengths, none)
+  | ["getKwargs"] => some (.getKwargs, none)
+  | ["calib", dens, smin, smax] => some (.calibrate (fun a b => pF dens * (b - a)) (pF smin) (pF smax), none)
+  | _ => none
 
 def step (σ : DSt) (ts : List String) : DSt × String :=
   match ts with
+  | "ctm" :: "new" :: order :: g :: fl :: dx :: ang :: c :: t :: mbpp :: nm :: k :: rest =>
+    let trig := [(pF ang, pF c, pF t)]
+    let p : CTParams Float := ⟨pN order, pF g, pF fl, pF dx, pF ang, takeAcc (pN k) rest, pN mbpp, hexDecode nm⟩
+    ({ σ with ctm := some ⟨ctFresh (extOf trig) p, trig⟩ }, "done")
+  | "ctm" :: rest => match σ.ctm, parseOp rest with
+    | some m, some (op, tr) =>
+      let trig := match tr with | some e => e :: m.trig | none => m.trig
+      let r := ctStep (extOf trig) m.s op
+      ({ σ with ctm := some ⟨r.1, trig⟩ }, showOut r.2)
+    | _, _ => (σ, "bad-ctm")
   | ["new", cls] => match findTable cls with
-    | none => (none, "no-table")
-    | some t => let r := construct t; (some (t, (r.state?).getD t.blank), showRes t r)
-  | ["call", m] => match σ with
+    | none => ({ σ with tab := none }, "no-table")
+    | some t => let r := construct t; ({ σ with tab := some (t, (r.state?).getD t.blank) }, showRes t r)
+  | ["call", m] => match σ.tab with
     | none => (σ, "no-instance")
     | some (t, s) => match (methodNames t).idxOf? m with
       | none => (σ, "no-method")
@@ -89,7 +144,7 @@ def step (σ : DSt) (ts : List String) : DSt × String :=
                 then " c=1" else " c=0"
             | none => " c=0"
           else ""
-        (some (t, (r.state?).getD s), showRes t r ++ c)
+        ({ σ with tab := some (t, (r.state?).getD s) }, showRes t r ++ c)
   | ["proto", cls] => (σ, match findTable cls with | none => "no-table" | some t => protoLine t)
   | ["gaps", cls] => (σ, match findTable cls with | none => "no-table" | some t => gapsLine t)
   | "spec" :: mbpp :: k :: rest =>
@@ -104,6 +159,9 @@ def step (σ : DSt) (ts : List String) : DSt × String :=
       | _ => []
     (σ, showSettings (polySettings ceilF infF (fl (rest.map pF)) (pN mbpw)))
   | ["filter", a, b] => let f := filterOf (pF a) (pF b); (σ, fFs [f.minW, f.maxW, f.window])
+  | "filtertab" :: _ :: ws => (σ, match filterOfTab (ws.map pF) with
+      | some f => fFs [f.minW, f.maxW, f.window]
+      | none => "none")
   | ["trap", c, w] => let f := trapezoid (pF c) (pF w); (σ, fFs [f.minW, f.maxW, f.window])
   | ["ctres", cosA, tanA, g, m, dxdp, fl, wl] =>
     (σ, fF (ctResolution Float.sqrt (pF cosA) (pF tanA) (pF g) (pF m) (pF dxdp) (pF fl) (pF wl)))
@@ -130,5 +188,5 @@ def step (σ : DSt) (ts : List String) : DSt × String :=
   | _ => (σ, "bad-op")
 
 def main : IO UInt32 := do
-  loop step (← IO.getStdin) (← IO.getStdout) none
+  loop step (← IO.getStdin) (← IO.getStdout) {}
   return 0
